@@ -105,16 +105,20 @@ def run_script(segs, faults, requeue):
 
     queue = w.StepQueue.make()
     started = []
+    active = set(faults)
+    executed = []
 
-    def stmt(s):
-        if s in faults:
+    def stmt(s, in_cleanup=False):
+        if s in active:
             raise pw.OperationalError(f"injected at {s}")
+        if not in_cleanup:
+            executed.append(s)
 
     def make_cleanup(cid, body):
         def c():
             started.append(cid)
             for s in body:
-                stmt(s)
+                stmt(s, True)
         return c
 
     class Boom(Exception):
@@ -178,6 +182,35 @@ def run_script(segs, faults, requeue):
         if exited or aborted or not requeued_self:
             break
     leftover_inprogress = queue.inprogress_size
+    # "event-triggered imports are re-queued": with the database healthy again, what was put back must do the work from the start
+    run_script.rerun = None
+    if obs and obs[-1][4] and not pool.global_abort.is_set():
+        active.clear()
+        executed.clear()
+        started.clear()
+        for _ in range(len(segs) + 2):
+            if queue.qsize == 0:
+                break
+            got = {"n": 0}
+            w2 = pool.Worker(queue, 1)
+
+            class QP2:
+                @staticmethod
+                def get(timeout=None):
+                    if got["n"] >= 1:
+                        w2._worker_stop.set()
+                        return None
+                    got["n"] += 1
+                    return queue.get(timeout=timeout)
+
+                task_done = staticmethod(queue.task_done)
+
+            w2._queue = QP2
+            w2.run()
+            if pool.global_abort.is_set():
+                break
+        pool.global_abort.clear()
+        run_script.rerun = (list(executed), list(started), queue.qsize, queue.inprogress_size)
     return obs, leftover_inprogress
 
 
@@ -226,6 +259,13 @@ def explore_scripts(ctx, n):
                     ctx.fail("C10:cleanup-missed", f"registered {reg}, started {ran}", rp)
             if last[4] != (last[2] and requeue):
                 ctx.fail("C10:requeue", f"worker exit={last[2]}, requeue flag={requeue}, fresh copy queued={last[4]}", rp)
+            if run_script.rerun is not None:
+                ex, st, qs, ip = run_script.rerun
+                want = [a[1] for acts in segs for a in acts if a[0] == "stmt"]
+                wantc = sorted(a[2] for acts in segs for a in acts if a[0] == "reg")
+                if ex != want or sorted(st) != wantc or qs or ip:
+                    rp2 = dict(rp, rerun={"executed": ex, "cleanups": st, "queued": qs, "in_progress": ip})
+                    ctx.fail("C10:requeued-work-lost", f"the re-queued task, run with the database healthy, executed statements {ex} (the task's statements: {want}), clean-ups {sorted(st)} (registered: {wantc}), left {qs} queued / {ip} in progress", rp2)
         obs_t = clist([ctup(clist([cnat(c) for c in o[0]], "nat"), cnat(o[1]), cbool(o[2]), cbool(o[3]), cbool(o[4]), cbool(o[5])) for o in obs], "obs")
         terms.append(ctup(clist([cnat(f) for f in faults], "nat"), cbool(requeue), clist([clist([act_term(a) for a in acts], "act") for acts in segs], "(list act)"), obs_t))
         keep.append(rp)
